@@ -534,7 +534,7 @@ def check_C19(ctx):
     q = ctx.tier == 'quick'
     r = assume_model(ctx, 'RandModels', {'W': 3, 'NMAX': 600 if q else 4000, 'MMAX': 12 if q else 18, 'Variant': '"ok"'}, timeout=3000)
     ctx.model_must_hold(r, what='(urandomm bit count / rejection; LC chunk assembly stays below 2^nbits)')
-    trace_drivers(ctx, [('c19_hist', 16, 1500), ('c19_copy', 8, 900), ('c19_stats', 8, 1500)], pure_drivers=['c19_hist'])
+    trace_drivers(ctx, [('c19_hist', 16, 1500), ('c19_copy', 8, 900), ('c19_stats', 8, 1500), ('c19_old', 4, 600)], pure_drivers=['c19_hist', 'c19_old'])
     return ctx.finish('model_checking',
         rule='R2: RandModels = for every n<=NMAX the bit count of mpz_urandomm makes every value of [0,n-1] reachable by exactly one trial value and accepts at least half of the trials; '
              'the chunk assembly of randget_lc with ARBITRARY chunk contents stays below 2^nbits for every modulus exponent and request length. R3/R1: twin generator states of every kind '
